@@ -59,12 +59,37 @@ def decoder_iterations(du, dfi):
                         and isinstance(elem, TupleV) and isinstance(elem.items[0], IntV):
                     pos = elem.items[0].lin - getattr(itv, 'enum_start', Lin.const(0))
                     lst = itv.src
+                    if getattr(itv, 'desc', None) == 'zip' and isinstance(lst, (list, tuple)) and len(lst) == 2:
+                        # zip(range(a, b), flags): the j-th pair holds element a + j and flags[j]
+                        first_, second_ = it.resolve(lst[0]), it.resolve(lst[1])
+                        if isinstance(first_, RangeV) and first_.step == 1:
+                            pos = elem.items[0].lin - Lin.of(first_.lo)
+                            lst = second_
+                        else:
+                            continue
                     par = getattr(lst, 'parent', None)
                     if par is not None:
                         if par[1] is not None:
                             pos = pos + Lin.of(par[1])
                         lst = par[0]
                     rec.update(flag=truth, pos=pos, root=lst)
+            if rec['flag'] is None and isinstance(elem, IntV):
+                # the loop runs over a list of element numbers built beforehand:  [n for n, flag in enumerate(bits[a:b], start=s) if flag]
+                for sy in st.canon(elem.lin).syms():
+                    o = it.origin.get(sy)
+                    if not (isinstance(o, tuple) and len(o) == 4 and o[0] == 'enumerate'):
+                        continue
+                    _, start, src, el = o
+                    tested = [t for k, t, d in p.facts if k == 'truth' and d.get('sym') is el]
+                    if tested and all(tested):
+                        pos = Lin.sym(sy) - Lin.of(start)
+                        lst = src
+                        par = getattr(lst, 'parent', None)
+                        if par is not None:
+                            if par[1] is not None:
+                                pos = pos + Lin.of(par[1])
+                            lst = par[0]
+                        rec.update(flag=True, pos=pos, root=lst)
             if isinstance(elem, IntV):
                 rec['bit'] = elem
             elif isinstance(elem, TupleV) and elem.items and isinstance(elem.items[0], IntV):
@@ -76,8 +101,8 @@ def decoder_iterations(du, dfi):
                 parts = getattr(root, 'parts', None)
                 if parts and parts[0][0] == 'items':
                     rec['k'] = len(parts[0][1])
-                elif root.items is not None or getattr(root, 'prev_items', None) is not None:
-                    rec['k'] = 0
+                elif root.items is not None or getattr(root, 'prev_items', None) is not None or not parts:
+                    rec['k'] = 0      # one homogeneous list (not a concatenation): no prefix entries
             out.append(rec)
     return out
 
